@@ -167,6 +167,10 @@ def _decorate_namespace_function(
         base_postconditions = []  # type: List[Contract]
 
         bases_have_func = False
+
+        # True if one of the bases provides the function without any precondition, i.e., accepts all the calls
+        a_base_accepts_all = False
+
         for base in bases:
             if hasattr(base, key):
                 bases_have_func = True
@@ -182,6 +186,18 @@ def _decorate_namespace_function(
                         base_contract_checker.__postcondition_snapshots__
                     )
                     base_postconditions.extend(base_contract_checker.__postconditions__)
+
+                if (
+                    base_contract_checker is None
+                    or not base_contract_checker.__preconditions__
+                ):
+                    a_base_accepts_all = True
+
+        if a_base_accepts_all and base_preconditions:
+            # The preconditions are OR'ed. Since one of the bases accepts all the calls, the preconditions of
+            # the other bases and of this function can not restrict the input anymore.
+            base_preconditions = []
+            preconditions = []
 
         # Collapse preconditions and postconditions from the bases with the function's own ones
         preconditions = _collapse_preconditions(
@@ -199,7 +215,7 @@ def _decorate_namespace_function(
             base_postconditions=base_postconditions, postconditions=postconditions
         )
 
-    if preconditions or postconditions:
+    if preconditions or postconditions or contract_checker is not None:
         if contract_checker is None:
             contract_checker = icontract._checkers.decorate_with_checker(func=func)
 
@@ -246,6 +262,10 @@ def _decorate_namespace_property(
         base_postconditions = []  # type: List[Contract]
 
         bases_have_func = False
+
+        # True if one of the bases provides the function without any precondition, i.e., accepts all the calls
+        a_base_accepts_all = False
+
         for base in bases:
             if hasattr(base, key):
                 base_property = getattr(base, key)
@@ -282,6 +302,12 @@ def _decorate_namespace_property(
                     )
                     base_postconditions.extend(base_contract_checker.__postconditions__)
 
+                if (
+                    base_contract_checker is None
+                    or not base_contract_checker.__preconditions__
+                ):
+                    a_base_accepts_all = True
+
         # Add preconditions and postconditions of the function
         preconditions = []  # type: List[List[Contract]]
         snapshots = []  # type: List[Snapshot]
@@ -292,6 +318,12 @@ def _decorate_namespace_property(
             preconditions = contract_checker.__preconditions__  # type: ignore
             snapshots = contract_checker.__postcondition_snapshots__  # type: ignore
             postconditions = contract_checker.__postconditions__  # type: ignore
+
+        if a_base_accepts_all and base_preconditions:
+            # The preconditions are OR'ed. Since one of the bases accepts all the calls, the preconditions of
+            # the other bases and of this function can not restrict the input anymore.
+            base_preconditions = []
+            preconditions = []
 
         preconditions = _collapse_preconditions(
             base_preconditions=base_preconditions,
@@ -308,7 +340,7 @@ def _decorate_namespace_property(
             base_postconditions=base_postconditions, postconditions=postconditions
         )
 
-        if preconditions or postconditions:
+        if preconditions or postconditions or contract_checker is not None:
             if contract_checker is None:
                 contract_checker = icontract._checkers.decorate_with_checker(func=func)
 
